@@ -37,7 +37,12 @@ UNPROVED = [
 PITCH = ["C", "C#", "D", "Eb", "E", "F", "F#", "G", "Ab", "A", "Bb", "B"]
 PC = {"C": 0, "C#": 1, "D": 2, "Eb": 3, "E": 4, "F": 5, "F#": 6, "G": 7, "Ab": 8, "A": 9, "Bb": 10, "B": 11}
 RICH = ["N", "X", "C:maj", "C:min", "G:7", "A:min7", "F:maj/3", "D:sus4", "E:maj(9)", "Bb:maj7", "C:maj6",
-        "G:maj", "C", "A:min", "F#:dim", "Ab:aug", "D:min7/b7", "E:hdim7", "G:(1,5)", "B:maj(*3)"]
+        "G:maj", "C", "A:min", "F#:dim", "Ab:aug", "D:min7/b7", "E:hdim7", "G:(1,5)", "B:maj(*3)",
+        "G:9", "A:min9", "Bb:maj9", "G:7(*5)", "D:sus4(b7)", "E:11", "A:13"]
+# the same chord with an extension / an interval edit: equal under the reduced encoding the segmentation step uses, or
+# sharing its base quality's bitmap
+EXT_TWIN = {"G:7": ["G:9", "G:7(*5)"], "A:min7": ["A:min9"], "Bb:maj7": ["Bb:maj9"], "D:sus4": ["D:sus4(b7)"],
+            "G:9": ["G:7"], "A:min9": ["A:min7"], "Bb:maj9": ["Bb:maj7"], "E:maj(9)": ["E:maj"], "B:maj(*3)": ["B:maj"]}
 
 
 def root_label(tok):
@@ -268,6 +273,9 @@ def check_chord_refine(inp):
     ri, rl, ei, el = inp["ref"], inp["ref_labels"], inp["est"], inp["est_labels"]
     ri2, rl2 = refine(ri, rl, inp["ref_cuts"])
     ei2, el2 = refine(ei, el, inp["est_cuts"])
+    if inp.get("fresh"):
+        from props._relational import fresh_library
+        fresh_library("chord")
     a = _call(lambda: mir_eval.chord.evaluate(np.array(ri, dtype=float).reshape(-1, 2), list(rl),
                                               np.array(ei, dtype=float).reshape(-1, 2), list(el)))
     b = _call(lambda: mir_eval.chord.evaluate(np.array(ri2, dtype=float).reshape(-1, 2), list(rl2),
@@ -320,12 +328,16 @@ def gen_chord_refine(rng, tier, shard, nshards, boost):
         rl = [rng.choice(RICH) for _ in ri]
         el = [rng.choice(RICH[:1] + RICH[2:]) for _ in ei]
         for k in range(1, len(rl)):
-            if rng.random() < 0.3:
+            u = rng.random()
+            if u < 0.3:
                 rl[k] = rl[k - 1]
+            elif u < 0.45 and rl[k - 1] in EXT_TWIN:
+                rl[k] = rng.choice(EXT_TWIN[rl[k - 1]])
         yield {"ref": [[F(s), F(e)] for s, e in ri], "ref_labels": rl,
                "est": [[F(s), F(e)] for s, e in ei], "est_labels": el,
                "ref_cuts": [F(p) for p in (_cuts(rng, ri, ei) if rng.random() < 0.8 else [])],
-               "est_cuts": [F(p) for p in (_cuts(rng, ei, ri) if rng.random() < 0.8 else [])]}
+               "est_cuts": [F(p) for p in (_cuts(rng, ei, ri) if rng.random() < 0.8 else [])],
+               "fresh": rng.random() < 0.3}     # the uncut annotation is the first thing the library's chord module sees
 
 
 SEG_METRICS = ["pairwise", "rand_index", "ari", "mutual_information", "nce", "vmeasure"]
